@@ -314,6 +314,9 @@ impl Prop for C15 {
         let mut samples = 0;
         while i < n_lines {
             let l = nth_line(i, max_line);
+            if i % 1024 < ctx.nshards as u64 {
+                crate::wctx::beat();
+            }
             ctx.stats.evaluations += 1;
             if l.contains("TXTPP#") {
                 ctx.stats.nontrivial_counted += 1;
@@ -355,6 +358,7 @@ impl Prop for C15 {
         let mut continued = 0u64;
         while j < n_cont {
             let cl = nth_line(j, max_cont);
+            crate::wctx::beat();
             for dl in &dls {
                 ctx.stats.evaluations += 1;
                 match check_pair(dl, &cl) {
